@@ -131,7 +131,20 @@ pub fn math_round(
     args: &[JsValue],
 ) -> Result<Guarded, JsError> {
     let n = args.first().map(|v| v.to_number()).unwrap_or(f64::NAN);
-    Ok(Guarded::unguarded(JsValue::Number(prelude_math::round(n))))
+    // Ties round towards +Infinity (2.5 -> 3, -2.5 -> -2); results in (-1, 0] keep the sign: -0
+    let result = if !n.is_finite() || prelude_math::fract(n) == 0.0 {
+        n
+    } else {
+        // (n - floor(n) is exact, n + 0.5 is not: 0.49999999999999994 + 0.5 == 1)
+        let floor = prelude_math::floor(n);
+        let rounded = if n - floor >= 0.5 { floor + 1.0 } else { floor };
+        if rounded == 0.0 && n < 0.0 {
+            -0.0
+        } else {
+            rounded
+        }
+    };
+    Ok(Guarded::unguarded(JsValue::Number(result)))
 }
 
 pub fn math_trunc(
@@ -156,7 +169,7 @@ pub fn math_sign(
     } else if n < 0.0 {
         -1.0
     } else {
-        0.0
+        n // +0 or -0
     };
     Ok(Guarded::unguarded(JsValue::Number(result)))
 }
@@ -175,7 +188,8 @@ pub fn math_min(
         if n.is_nan() {
             return Ok(Guarded::unguarded(JsValue::Number(f64::NAN)));
         }
-        if n < min {
+        // -0 is smaller than +0
+        if n < min || (n == 0.0 && min == 0.0 && n.is_sign_negative()) {
             min = n;
         }
     }
@@ -196,7 +210,8 @@ pub fn math_max(
         if n.is_nan() {
             return Ok(Guarded::unguarded(JsValue::Number(f64::NAN)));
         }
-        if n > max {
+        // +0 is larger than -0
+        if n > max || (n == 0.0 && max == 0.0 && max.is_sign_negative()) {
             max = n;
         }
     }
